@@ -9,7 +9,8 @@ Specs
   spec/LineTrack.tla       layout model: one probe (raising call or malformed token) inside a TLC-chosen
                            nest of wrappers with TLC-chosen blank lines / text / whitespace control;
                            abstract line = 1 + line breaks before the probe; operational layer = the
-                           lexer's line counter (C35_TokenLine).
+                           lexer's line counter (C35_TokenLine), including {% raw %} blocks whose opening
+                           tag is one begin token counted by the "#bygroup" branch (Raws / CountBegin).
 Binding
   spec->code: every case printed by LineTrack.tla is turned into Jinja source and rendered; the innermost
   template frame of the rewritten traceback (traceback.extract_tb) / TemplateSyntaxError.lineno and .name
